@@ -108,6 +108,77 @@ func firstLeaf(v interface{}, path []string) ([]string, bool) {
 	return nil, false
 }
 
+// provokeAll walks the unpacked document and provokes, for every setting, an error about exactly that
+// setting (a typed getter of the wrong kind); returns the class and message of the first error that
+// fails to mention the file (or mentions a source although the document was in memory).
+func provokeAll(cur *ucfg.Config, v interface{}, path []string, fname string, fromFile bool) (string, string) {
+	check := func(err error, at string) (string, string) {
+		if err == nil {
+			return "", ""
+		}
+		has := fname != "" && strings.Contains(err.Error(), "source:'"+fname+"'")
+		if fromFile && !has {
+			return "source-missing-in-error", at + ": " + err.Error()
+		}
+		if !fromFile && strings.Contains(err.Error(), "source:") {
+			return "source-in-memory-error", at + ": " + err.Error()
+		}
+		return "", ""
+	}
+	provoke := func(name string, idx int, x interface{}) (string, string) {
+		at := strings.Join(path, "/") + "/" + name + fmt.Sprintf("#%d", idx)
+		switch x.(type) {
+		case nil:
+			return "", ""
+		case map[string]interface{}, []interface{}:
+			_, err := cur.Int(name, idx)
+			if err == nil {
+				return "source-probe", at + ": Int() of an object did not fail"
+			}
+			return check(err, at)
+		default:
+			_, err := cur.Child(name, idx)
+			if err == nil {
+				return "source-probe", at + ": Child() of a primitive did not fail"
+			}
+			return check(err, at)
+		}
+	}
+	descend := func(name string, idx int, x interface{}) (string, string) {
+		if c, m := provoke(name, idx, x); c != "" {
+			return c, m
+		}
+		switch x.(type) {
+		case map[string]interface{}, []interface{}:
+			sub, err := cur.Child(name, idx)
+			if err != nil || sub == nil {
+				return "", ""
+			}
+			seg := name
+			if name == "" {
+				seg = fmt.Sprint(idx)
+			}
+			return provokeAll(sub, x, append(append([]string{}, path...), seg), fname, fromFile)
+		}
+		return "", ""
+	}
+	switch x := v.(type) {
+	case map[string]interface{}:
+		for _, k := range sortedKeys(x) {
+			if c, m := descend(k, -1, x[k]); c != "" {
+				return c, m
+			}
+		}
+	case []interface{}:
+		for i, e := range x {
+			if c, m := descend("", i, e); c != "" {
+				return c, m
+			}
+		}
+	}
+	return "", ""
+}
+
 // knownDevs: the deviations listed as open findings for this family (VERIF_KNOWN, set by bin/check)
 func knownDevs() map[string]bool {
 	m := map[string]bool{}
@@ -241,30 +312,15 @@ func loadersReplay(args []string) int {
 								rep.violate("loader-result", raw, map[string]interface{}{"loader": what, "text": string(text), "out": out}, want, "")
 								return
 							}
-							// the source of a setting is recorded for the *WithFile loaders only
+							// the source of a setting is recorded for the *WithFile loaders only: an error about ANY
+							// setting of the document (primitive, object, list - empty ones too - and list elements)
+							// mentions the file, and an in-memory document has no source
 							if cfg != nil && out.Err == "" {
 								var m map[string]interface{}
 								cfg.Unpack(&m, base...)
-								if p, ok := firstLeaf(map[string]interface{}(m), nil); ok {
-									var cerr error
-									cur := cfg
-									for i := 0; i < len(p)-1 && cur != nil; i++ {
-										cur, _ = cur.Child(p[i], -1)
-									}
-									if cur != nil {
-										_, cerr = cur.Child(p[len(p)-1], -1)
-									}
-									if cerr != nil {
-										has := strings.Contains(cerr.Error(), fname) && fname != ""
-										if fromFile && !has {
-											rep.violate("source-missing-in-error", raw, cerr.Error(), "message mentions "+fname, what)
-											return
-										}
-										if !fromFile && strings.Contains(cerr.Error(), "source:") {
-											rep.violate("source-in-memory-error", raw, cerr.Error(), "no source for in-memory documents", what)
-											return
-										}
-									}
+								if cls, msg := provokeAll(cfg, m, nil, fname, fromFile); cls != "" {
+									rep.violate(cls, raw, msg, "an error about a setting read from a file mentions "+fname+" (and only then)", what)
+									return
 								}
 							}
 						}
